@@ -35,6 +35,18 @@ fn check_text(text: &str) -> Option<String> {
     if ls.is_empty() || ls[0] != 0 { return Some(format!("wf: line_starts {:?} does not start with 0", ls)); }
     for w in ls.windows(2) { if w[0] >= w[1] { return Some(format!("wf: line_starts {:?} not strictly increasing", ls)); } }
     for &s in &ls { if s as usize > text.len() || !text.is_char_boundary(s as usize) { return Some(format!("wf: line start {} is not a char boundary of the text", s)); } }
+    // editor (LSP) line structure: a line ends after "\n", "\r\n" or a lone "\r"
+    let mut want: Vec<u32> = vec![0];
+    let b = text.as_bytes();
+    let mut i = 0usize;
+    while i < b.len() {
+        if b[i] == b'\n' { want.push(i as u32 + 1); }
+        else if b[i] == b'\r' {
+            if i + 1 < b.len() && b[i + 1] == b'\n' { want.push(i as u32 + 2); i += 1; } else { want.push(i as u32 + 1); }
+        }
+        i += 1;
+    }
+    if ls != want { return Some(format!("compute_line_starts = {:?}, but the lines of the text (LF / CRLF / CR terminated) start at {:?}", ls, want)); }
     for off in 0..=text.len() {
         if !text.is_char_boundary(off) { continue; }
         let p = match std::panic::catch_unwind(|| utf8_offset_to_utf16_position(text, &ls, off as u32)) {
